@@ -72,7 +72,7 @@ def hexDigitsUpper (n : Nat) : Bytes :=
 /-- `IntegerToHex::visit` + `value()` for a raw value of arithmetic tag `c` -/
 def integerToHex (c : UInt8) (raw : Nat) : Bytes :=
   if !arithIsIntegral c then [] else
-  if c = 121 then (if raw % 256 = 0 then [48] else [49])        -- bool: '0' / '1'
+  if c = 121 then [UInt8.ofNat (48 + raw % 256)]   -- bool: `v ? '1' : '0'`; a byte other than 0/1 is an invalid bool (UB): gcc -O1 emits '0' + v
   else
     match arithSize c with
     | none => []
